@@ -192,5 +192,8 @@ def run(ctx) -> None:
     ctx.guard(r13_2)
     ctx.guard(fixed_width_ec, "R13.3")
     ctx.guard(r13_4)
+    # "never overwritten once present, stable across exports": exports hand out a copy, never the key's own dict
+    from .c12 import r12_2
+    ctx.guard_as("R13.5", r12_2)
     ctx.assume("hashlib digests; JSON serialisation of ASCII member values by json.dumps")
     ctx.note("'kid stays stable' under concurrent use additionally rests on C20 R20.4 (no lost update on the lazy dict view)")
